@@ -24,6 +24,10 @@ CHECKS = {
             'Bounded symbolic verification over configurations: the 12 documented options are solver variables read through concretising forks, the real compute_emissions runs for every feasible option combination on symbolic data; every path must return (then switched-off species are proved absent/zero in trajectory and LTO parts) or raise a refusal naming the offending option value; any other exception is a counterexample configuration, replayed through the real Config.load + compute_emissions.',
             'same engine and stubs as C01; classification of an exception as a named refusal is by message text',
             'proxy symbolic execution with symbolic configuration + z3; exceptions as path outcomes', 'DESIGN.md#c11'),
+    'C12': ('other',
+            'Bounded symbolic verification of the EI/atmosphere building blocks against independent transcriptions of the cited equations over their whole input range, with exp/log/log10/10^x/x^c as axiomatised uninterpreted functions: ISA temperature and pressure in both layers (refusal above 25 km, positivity, algebraic inverse altitude(pressure(h)) = h), Fuel Flow Method 2 sea-level fuel flow (eq. 40) and Mach number, thrust category (exactly one, midpoint thresholds, monotone in fuel flow for every positive calibration set including non-monotone and equal flows), SOx stoichiometry (sulfur atoms conserved), FOA3 (piecewise-linear delta, linear in HC) and fuel-flow volatile PM, SCOPE11 (invalid smoke numbers skipped, cap at 40, TF/MTF/other), and for BFFM2 NOx and HC/CO: non-negativity, speciation fractions summing to one and coupling to the thrust category.',
+            'libm accuracy and anything needing the numeric value of a transcendental function are outside; MEEM and the full log-log fits of BFFM2/HC-CO (structure vs. reference, linear scaling) are not decided (stated in DESIGN.md); exact reals with 1e-9 relative tolerance',
+            'proxy symbolic execution + z3 with Ackermannised uninterpreted functions and instantiated axioms', 'DESIGN.md#c12'),
     'C15': ('other',
             'Bounded symbolic verification: the real GroundTrack (constructor, location, step, overstep) and Mission.gc_distance run on symbolic waypoints/airports and symbolic distances with pyproj replaced by a recording geodesic oracle; z3 decides for all inputs that total length is the sum of the per-segment oracle distances, that the returned position is the oracle forward result from the start waypoint of the segment containing the requested distance by exactly the offset (overstep: continuing the last segment from its own start), that step(a,b) and location(a+b) coincide, that refusals occur only for documented reasons, that azimuths are in [0,360), and that every oracle call uses (lon, lat) order. Counterexamples are replayed with real pyproj against an independent geodesic computation.',
             'pyproj is a trusted oracle (its WGS-84 numerics, antimeridian and polar behaviour are not analysed); 2..3 (thorough 4) waypoints; one operation per path',
